@@ -35,7 +35,8 @@ Qed.
 
 Definition bind_of_row (r : row) : N * pinfo :=
   (r_id r, {| pi_group := r_group r; pi_name := r_name r; pi_descr := r_descr r;
-              pi_submit := r_submit r; pi_status := r_status r |}).
+              pi_submit := r_submit r; pi_status := r_status r;
+              pi_start := r_start r; pi_end := r_end r |}).
 
 Lemma result_of_bind : forall r, result_of (bind_of_row r) = result_of_row r.
 Proof. intros r. reflexivity. Qed.
@@ -162,22 +163,47 @@ Qed.
 
 (* ------------------------------------------------------------------ sqlite: the table refines the store *)
 
+(* Two layers. [sqv_*]: the table as the time codec presents it (state_start / state_end already decoded
+   by fieldToState: the zero time or an instant after the epoch). It refines the store for every history.
+   The table of Rows.v keeps the raw int64 columns; its decoded view [sq_view] evolves like [sqv_*] whenever
+   the times written are representable (below). *)
+Definition sqv_cols (r : row) : row := set_state (r_status r) (sq_time (r_start r)) (sq_time (r_end r)) r.
+Definition sqv_create (r : row) (tb : table) : table * bool :=
+  if N.eqb (r_id r) 0 then (tb, false)
+  else if sq_exists tb (r_id r) then (tb, false)
+  else (tb ++ [set_swarm 0 (sqv_cols (sq_clamp r))], true).
+Definition sqv_update (id st : N) (start fin : Z) (tb : table) : table * bool :=
+  (map (fun r => if has_id id r then set_state st (sq_time start) (sq_time fin) r else r) tb, true).
+Definition sqv_step (tb : table) (o : op) : table * bool :=
+  match o with
+  | OCreate r => sqv_create r tb
+  | OUpdate id st _ start fin => sqv_update id st start fin tb
+  | ODelete id => sq_delete id tb
+  end.
+Definition sqv_run (ops : list op) : table := fold_left (fun tb o => fst (sqv_step tb o)) ops [].
+Definition sqv_search (f : filters) (tb : table) : option (list sev) :=
+  if validate f then
+    let (q, b) := sq_build_search f in Some (produce result_of_row (run_query q b tb))
+  else None.
+Definition sqv_list (limit : Z) (tb : table) : list sev :=
+  let (q, b) := sq_list_query limit in produce result_of_row (run_query q b tb).
+
 Definition sq_inv (tb : table) (sp : store) : Prop :=
   map bind_of_row tb = sp /\ NoDup (map r_id tb) /\ ~ In 0%N (map r_id tb).
 
 Lemma bind_create_sqlite : forall r,
-  bind_of_row (set_swarm 0 (sq_clamp r)) = (r_id r, info_of_create Sqlite r).
+  bind_of_row (set_swarm 0 (sqv_cols (sq_clamp r))) = (r_id r, info_of_create Sqlite r).
 Proof.
   intros r. unfold sq_clamp, info_of_create, bind_of_row. destruct (Z.ltb (r_submit r) 0) eqn:E; simpl.
   - apply Z.ltb_lt in E. rewrite Z.max_l by lia. reflexivity.
   - apply Z.ltb_ge in E. rewrite Z.max_r by lia. reflexivity.
 Qed.
 
-Lemma sq_step_inv : forall tb sp o, sq_inv tb sp -> sq_inv (fst (sq_step tb o)) (spec_step Sqlite sp o).
+Lemma sqv_step_inv : forall tb sp o, sq_inv tb sp -> sq_inv (fst (sqv_step tb o)) (spec_step Sqlite sp o).
 Proof.
-  intros tb sp o [Hm [ND H0]]. subst sp. destruct o as [r | id st sub | id]; simpl.
+  intros tb sp o [Hm [ND H0]]. subst sp. destruct o as [r | id st sub start fin | id]; simpl.
   - (* create *)
-    unfold sq_create. destruct (N.eqb (r_id r) 0) eqn:E0; [simpl; repeat split; assumption|].
+    unfold sqv_create. destruct (N.eqb (r_id r) 0) eqn:E0; [simpl; repeat split; assumption|].
     rewrite sq_exists_existsb. destruct (existsb (has_id (r_id r)) tb) eqn:Ex; simpl.
     + apply exists_get in Ex. destruct (get (map bind_of_row tb) (r_id r)); [|congruence]. repeat split; assumption.
     + assert (Hn : get (map bind_of_row tb) (r_id r) = None).
@@ -194,7 +220,7 @@ Proof.
   - (* update *)
     destruct (get (map bind_of_row tb) id) as [v|] eqn:G.
     + repeat split.
-      * apply (map_update_put (set_status st) (info_update Sqlite st sub)); [exact ND | reflexivity | exact G].
+      * apply (map_update_put (set_state st (sq_time start) (sq_time fin)) (info_update Sqlite st sub start fin)); [exact ND | reflexivity | exact G].
       * rewrite map_update_ids by reflexivity. exact ND.
       * rewrite map_update_ids by reflexivity. exact H0.
     + apply get_none_not_In in G. rewrite dom_bind in G. rewrite map_update_absent by exact G.
@@ -214,11 +240,11 @@ Qed.
 Lemma fold_left_snoc : forall {A B} (f : A -> B -> A) l x a, fold_left f (l ++ [x]) a = f (fold_left f l a) x.
 Proof. intros. rewrite fold_left_app. reflexivity. Qed.
 
-Lemma sq_run_inv : forall ops, sq_inv (sq_run ops) (spec_run Sqlite ops).
+Lemma sqv_run_inv : forall ops, sq_inv (sqv_run ops) (spec_run Sqlite ops).
 Proof.
   intros ops. induction ops as [|o ops IH] using rev_ind.
   - repeat split; [constructor | intros []].
-  - unfold sq_run, spec_run. rewrite !fold_left_snoc. apply sq_step_inv. exact IH.
+  - unfold sqv_run, spec_run. rewrite !fold_left_snoc. apply sqv_step_inv. exact IH.
 Qed.
 
 (* ------------------------------------------------------------------ cosmosdb: plan ids + search partition refine the store *)
@@ -257,7 +283,7 @@ Qed.
 
 Lemma cs_step_inv : forall w s sp o, cs_inv w s sp -> cs_inv w (fst (cs_step w s o)) (spec_step Cosmos sp o).
 Proof.
-  intros w s sp o [Hm [Hp [ND [H0 Hw]]]]. subst sp. destruct o as [r | id st sub | id]; simpl.
+  intros w s sp o [Hm [Hp [ND [H0 Hw]]]]. subst sp. destruct o as [r | id st sub start fin | id]; simpl.
   - (* create *)
     unfold cs_create. destruct (N.eqb (r_id r) 0) eqn:E0; [simpl; repeat split; assumption|].
     rewrite (cs_exists_existsb _ _ Hp). destruct (existsb (has_id (r_id r)) (cs_search s)) eqn:Ex; simpl.
@@ -279,7 +305,7 @@ Proof.
     destruct (get (map bind_of_row (cs_search s)) id) as [v|] eqn:G.
     + assert (Ex : existsb (has_id id) (cs_search s) = true) by (apply exists_get; congruence).
       rewrite Ex. simpl. repeat split; cbn [cs_search cs_plans].
-      * apply (map_update_put (fun r => set_swarm w (set_submit sub (set_status st r))) (info_update Cosmos st sub));
+      * apply (map_update_put (fun r => set_swarm w (set_submit sub (set_state st start fin r))) (info_update Cosmos st sub start fin));
           [exact ND | reflexivity | exact G].
       * rewrite map_update_ids by reflexivity. exact Hp.
       * rewrite map_update_ids by reflexivity. exact ND.
@@ -565,8 +591,8 @@ Proof.
       rewrite Hp by exact Hin. rewrite Hb. apply matchesb_matches. exact Hm.
 Qed.
 
-Lemma produce_some : forall rows, produce (Some rows) = map SItem (map result_of_row rows) ++ [SClose].
-Proof. intros rows. unfold produce. rewrite map_map. reflexivity. Qed.
+Lemma produce_some : forall conv rows, produce conv (Some rows) = map SItem (map conv rows) ++ [SClose].
+Proof. intros conv rows. unfold produce. rewrite map_map. reflexivity. Qed.
 
 Lemma filter_ext_in : forall {A} (p q : A -> bool) l, (forall x, In x l -> p x = q x) -> filter p l = filter q l.
 Proof.
@@ -574,12 +600,12 @@ Proof.
   rewrite (H a) by (left; reflexivity). rewrite IH; [reflexivity|]. intros x Hx. apply H. right. exact Hx.
 Qed.
 
-Lemma sq_search_correct : forall f tb sp, sq_inv tb sp ->
-  (validate f = false -> sq_search f tb = None) /\
-  (validate f = true -> exists xs, sq_search f tb = Some (map SItem xs ++ [SClose]) /\ search_spec f sp xs).
+Lemma sqv_search_correct : forall f tb sp, sq_inv tb sp ->
+  (validate f = false -> sqv_search f tb = None) /\
+  (validate f = true -> exists xs, sqv_search f tb = Some (map SItem xs ++ [SClose]) /\ search_spec f sp xs).
 Proof.
-  intros f tb sp [Hm [ND H0]]. subst sp. unfold sq_search. split; intros Hv; rewrite Hv; [reflexivity|].
-  destruct (sq_where_matches f) with (r := {| r_id := 0; r_group := 0; r_name := 0; r_descr := 0; r_submit := 0; r_status := 0; r_swarm := 0 |})
+  intros f tb sp [Hm [ND H0]]. subst sp. unfold sqv_search. split; intros Hv; rewrite Hv; [reflexivity|].
+  destruct (sq_where_matches f) with (r := {| r_id := 0; r_group := 0; r_name := 0; r_descr := 0; r_submit := 0; r_status := 0; r_start := 0; r_end := 0; r_swarm := 0 |})
     as [c [Hc _]]; [exact Hv|].
   assert (Ho : q_order (fst (sq_build_search f)) = OSubmitDesc) by reflexivity.
   assert (Hl : q_limit (fst (sq_build_search f)) = None) by reflexivity.
@@ -596,7 +622,7 @@ Lemma cosmos_search_correct : forall w f s sp, cs_inv w s sp ->
   (validate f = true -> exists xs, cosmos_search w f s = Some (map SItem xs ++ [SClose]) /\ search_spec f sp xs).
 Proof.
   intros w f s sp [Hm [Hp [ND [H0 Hw]]]]. subst sp. unfold cosmos_search. split; intros Hv; rewrite Hv; [reflexivity|].
-  destruct (cs_where_matches w f) with (r := {| r_id := 0; r_group := 0; r_name := 0; r_descr := 0; r_submit := 0; r_status := 0; r_swarm := 0 |})
+  destruct (cs_where_matches w f) with (r := {| r_id := 0; r_group := 0; r_name := 0; r_descr := 0; r_submit := 0; r_status := 0; r_start := 0; r_end := 0; r_swarm := 0 |})
     as [c [Hc _]]; [exact Hv|].
   assert (Ho : q_order (fst (cs_build_search w f)) = OSubmitDesc) by reflexivity.
   assert (Hl : q_limit (fst (cs_build_search w f)) = None) by reflexivity.
@@ -628,12 +654,12 @@ Proof.
   - apply newest_first_map. apply sort_desc_sorted.
 Qed.
 
-Lemma sq_list_correct : forall limit tb sp, sq_inv tb sp ->
-  exists xs, sq_list limit tb = map SItem xs ++ [SClose] /\ list_spec limit sp xs.
+Lemma sqv_list_correct : forall limit tb sp, sq_inv tb sp ->
+  exists xs, sqv_list limit tb = map SItem xs ++ [SClose] /\ list_spec limit sp xs.
 Proof.
   intros limit tb sp [Hm _]. subst sp. exists (take limit (map result_of_row (sort_desc tb))).
   split; [|apply list_result_spec].
-  unfold sq_list, sq_list_query, take. destruct (Z.ltb 0 limit) eqn:E.
+  unfold sqv_list, sq_list_query, take. destruct (Z.ltb 0 limit) eqn:E.
   - apply Z.ltb_lt in E. assert (El : Z.leb limit 0 = false) by (apply Z.leb_gt; exact E). rewrite El.
     unfold run_query. cbn [q_where q_order q_limit apply_order apply_limit lookup b_named assoc pname_eqb].
     rewrite filter_all by reflexivity. rewrite produce_some. rewrite Z_N_nat. rewrite firstn_map. reflexivity.
@@ -683,7 +709,7 @@ Proof. intros. unfold spec_run. apply fold_left_snoc. Qed.
 Lemma spec_dom_nonzero : forall be ops, ~ In 0%N (dom (spec_run be ops)).
 Proof.
   intros be ops. destruct be.
-  - destruct (sq_run_inv ops) as [Hm [_ H0]]. rewrite <- Hm, dom_bind. exact H0.
+  - destruct (sqv_run_inv ops) as [Hm [_ H0]]. rewrite <- Hm, dom_bind. exact H0.
   - destruct (cs_run_inv 0 ops) as [Hm [_ [_ [H0 _]]]]. rewrite <- Hm, dom_bind. exact H0.
 Qed.
 
@@ -723,7 +749,7 @@ Proof.
   intros be ops. induction ops as [|o ops IH] using rev_ind; intros id.
   - simpl. split; [intros [] |]. intros [_ [pre [r [post [He _]]]]]. destruct pre; discriminate.
   - rewrite spec_run_snoc. pose proof (spec_dom_nonzero be ops) as Hz. set (sp := spec_run be ops) in *.
-    destruct o as [r | k st sub | k]; simpl.
+    destruct o as [r | k st sub start fin | k]; simpl.
     + (* create *)
       destruct (N.eqb (r_id r) 0) eqn:E0.
       * apply N.eqb_eq in E0. rewrite IH. split.
@@ -743,7 +769,7 @@ Proof.
               ** inversion Hr'. subst r'. right. left. exact Hid.
               ** left. apply IH. exact H.
     + (* update *)
-      assert (Hd : dom (match get sp k with Some v => put k (info_update be st sub v) sp | None => sp end) = dom sp).
+      assert (Hd : dom (match get sp k with Some v => put k (info_update be st sub start fin v) sp | None => sp end) = dom sp).
       { destruct (get sp k) eqn:G; [eapply dom_put_present; exact G | reflexivity]. }
       rewrite Hd. rewrite IH. split.
       * intros H. apply cnd_snoc_keep; [exact H | discriminate].
@@ -782,9 +808,9 @@ Qed.
 
 Lemma result_eqb_eq : forall a b, result_eqb a b = true <-> a = b.
 Proof.
-  intros [a1 a2 a3 a4 a5 a6] [b1 b2 b3 b4 b5 b6]. unfold result_eqb. simpl.
-  rewrite !andb_true_iff, !N.eqb_eq, Z.eqb_eq. split.
-  - intros [[[[[H1 H2] H3] H4] H5] H6]. congruence.
+  intros [a1 a2 a3 a4 a5 a6 a7 a8] [b1 b2 b3 b4 b5 b6 b7 b8]. unfold result_eqb. simpl.
+  rewrite !andb_true_iff, !N.eqb_eq, !Z.eqb_eq. split.
+  - intros [[[[[[[H1 H2] H3] H4] H5] H6] H7] H8]. congruence.
   - intros H. inversion H. tauto.
 Qed.
 
@@ -871,7 +897,7 @@ Qed.
 
 Definition row_of_result (x : result) : row :=
   {| r_id := x_id x; r_group := x_group x; r_name := x_name x; r_descr := x_descr x;
-     r_submit := x_submit x; r_status := x_status x; r_swarm := 0 |}.
+     r_submit := x_submit x; r_status := x_status x; r_start := x_start x; r_end := x_end x; r_swarm := 0 |}.
 
 Lemma result_row_id : forall x, result_of_row (row_of_result x) = x.
 Proof. intros []. reflexivity. Qed.
@@ -1003,7 +1029,7 @@ Qed.
 Lemma spec_run_NoDup : forall be ops, NoDup (dom (spec_run be ops)).
 Proof.
   intros be ops. destruct be.
-  - destruct (sq_run_inv ops) as [Hm [ND _]]. rewrite <- Hm, dom_bind. exact ND.
+  - destruct (sqv_run_inv ops) as [Hm [ND _]]. rewrite <- Hm, dom_bind. exact ND.
   - destruct (cs_run_inv 0 ops) as [Hm [_ [ND _]]]. rewrite <- Hm, dom_bind. exact ND.
 Qed.
 
@@ -1016,11 +1042,173 @@ Proof.
   - intros x. rewrite H. symmetry. apply (expected_search_In f sp x ND).
 Qed.
 
+(* ------------------------------------------------------------------ sqlite: the raw columns and their decoded view *)
+
+Definition sq_view (r : row) : row :=
+  set_state (r_status r) (sq_time_of_col (r_start r)) (sq_time_of_col (r_end r)) r.
+
+Lemma restore_wrap : forall t, representable t -> sq_time_of_col (wrap64 t) = sq_time t.
+Proof.
+  intros t [Hz | Hr].
+  - subst t. vm_compute. reflexivity.
+  - assert (H63 : (2 ^ 63 = 9223372036854775808)%Z) by reflexivity.
+    assert (H64 : (2 ^ 64 = 18446744073709551616)%Z) by reflexivity.
+    unfold wrap64. rewrite H63, H64 in *. rewrite Z.mod_small by lia.
+    replace (t + 9223372036854775808 - 9223372036854775808)%Z with t by lia.
+    unfold sq_time_of_col, sq_time. destruct (Z.leb t 0) eqn:E1; destruct (Z.ltb 0 t) eqn:E2; try reflexivity.
+    + apply Z.leb_le in E1. apply Z.ltb_lt in E2. lia.
+    + apply Z.leb_gt in E1. apply Z.ltb_ge in E2. lia.
+Qed.
+
+Lemma sq_result_view : forall r, sq_result_of_row r = result_of_row (sq_view r).
+Proof. intros r. reflexivity. Qed.
+
+Lemma existsb_view : forall id tb, existsb (has_id id) (map sq_view tb) = existsb (has_id id) tb.
+Proof. intros id tb. induction tb as [|r tb IH]; simpl; [reflexivity|]. rewrite IH. reflexivity. Qed.
+
+Lemma sq_exists_view : forall tb id, sq_exists (map sq_view tb) id = sq_exists tb id.
+Proof. intros tb id. rewrite !sq_exists_existsb. apply existsb_view. Qed.
+
+Lemma filter_map_comm : forall {A B} (f : A -> B) (p : B -> bool) l,
+  filter p (map f l) = map f (filter (fun x => p (f x)) l).
+Proof.
+  intros A B f p l. induction l as [|a l IH]; simpl; [reflexivity|].
+  destruct (p (f a)); simpl; rewrite IH; reflexivity.
+Qed.
+
+Lemma view_cols : forall r, representable (r_start r) -> representable (r_end r) ->
+  sq_view (set_swarm 0 (sq_cols r)) = set_swarm 0 (sqv_cols r).
+Proof.
+  intros r Hs He. unfold sq_view, sq_cols, sqv_cols, set_swarm, set_state.
+  cbn [r_id r_group r_name r_descr r_submit r_status r_start r_end r_swarm].
+  rewrite !restore_wrap by assumption. reflexivity.
+Qed.
+
+Lemma clamp_times : forall r, r_start (sq_clamp r) = r_start r /\ r_end (sq_clamp r) = r_end r.
+Proof. intros r. unfold sq_clamp. destruct (Z.ltb (r_submit r) 0); split; reflexivity. Qed.
+
+Lemma view_create_row : forall r, representable (r_start r) -> representable (r_end r) ->
+  sq_view (set_swarm 0 (sq_cols (sq_clamp r))) = set_swarm 0 (sqv_cols (sq_clamp r)).
+Proof.
+  intros r Hs He. destruct (clamp_times r) as [H1 H2]. apply view_cols; [rewrite H1 | rewrite H2]; assumption.
+Qed.
+
+Lemma view_step : forall tb o, op_representable o ->
+  map sq_view (fst (sq_step tb o)) = fst (sqv_step (map sq_view tb) o).
+Proof.
+  intros tb o Ho. destruct o as [r | id st sub start fin | id]; simpl in *.
+  - unfold sq_create, sqv_create. destruct (N.eqb (r_id r) 0); [reflexivity|].
+    rewrite sq_exists_view. destruct (sq_exists tb (r_id r)); simpl; [reflexivity|].
+    rewrite map_app. simpl. destruct Ho as [Hs He]. rewrite view_create_row by assumption. reflexivity.
+  - destruct Ho as [Hs He]. rewrite !map_map. apply map_ext. intros r.
+    change (has_id id (sq_view r)) with (has_id id r). destruct (has_id id r); [|reflexivity].
+    unfold sq_view, set_state. cbn [r_id r_group r_name r_descr r_submit r_status r_start r_end r_swarm].
+    rewrite !restore_wrap by assumption. reflexivity.
+  - unfold sq_delete. rewrite sq_exists_view. destruct (sq_exists tb id); simpl; [|reflexivity].
+    rewrite filter_map_comm. reflexivity.
+Qed.
+
+Lemma view_run : forall ops, Forall op_representable ops -> map sq_view (sq_run ops) = sqv_run ops.
+Proof.
+  intros ops. induction ops as [|o ops IH] using rev_ind; intros H; [reflexivity|].
+  apply Forall_app in H. destruct H as [H1 H2]. inversion H2; subst.
+  unfold sq_run, sqv_run. rewrite !fold_left_snoc. rewrite view_step by assumption.
+  f_equal. f_equal. apply IH. exact H1.
+Qed.
+
+Lemma eval_view : forall b c r, eval_cond b c (sq_view r) = eval_cond b c r.
+Proof.
+  intros b c r. induction c as [|cl p|cl ps|p cl|x IHx y IHy|x IHx y IHy]; simpl;
+    try rewrite IHx, IHy; try reflexivity; destruct cl; reflexivity.
+Qed.
+
+Lemma insert_view : forall x l, insert_desc (sq_view x) (map sq_view l) = map sq_view (insert_desc x l).
+Proof.
+  intros x l. induction l as [|y l IH]; simpl; [reflexivity|].
+  destruct (Z.ltb (r_submit x) (r_submit y)); simpl; [rewrite IH|]; reflexivity.
+Qed.
+
+Lemma sort_view : forall l, sort_desc (map sq_view l) = map sq_view (sort_desc l).
+Proof.
+  intros l. induction l as [|x l IH]; simpl; [reflexivity|]. rewrite IH. apply insert_view.
+Qed.
+
+Lemma produce_view : forall q b tb, q_order q = OSubmitDesc ->
+  produce result_of_row (run_query q b (map sq_view tb)) = produce (sq_result_of_row) (run_query q b tb).
+Proof.
+  intros q b tb Ho. unfold run_query. destruct (q_where q) as [c|]; [|reflexivity]. rewrite Ho. cbn [apply_order].
+  rewrite !produce_some. f_equal. f_equal.
+  rewrite filter_map_comm. rewrite (filter_ext _ _ (eval_view b c)). rewrite sort_view.
+  unfold apply_limit. destruct (q_limit q) as [p|].
+  - destruct (lookup b p) as [[n|vs]|]; rewrite ?firstn_map, map_map; apply map_ext; intros r; symmetry; apply sq_result_view.
+  - rewrite map_map. apply map_ext. intros r. symmetry. apply sq_result_view.
+Qed.
+
+Lemma search_view : forall f tb, sq_search f tb = sqv_search f (map sq_view tb).
+Proof.
+  intros f tb. unfold sq_search, sqv_search. destruct (validate f); [|reflexivity].
+  assert (Ho : q_order (fst (sq_build_search f)) = OSubmitDesc) by reflexivity.
+  destruct (sq_build_search f) as [q b]. cbn [fst] in Ho. rewrite produce_view by exact Ho. reflexivity.
+Qed.
+
+Lemma list_view : forall limit tb, sq_list limit tb = sqv_list limit (map sq_view tb).
+Proof.
+  intros limit tb. unfold sq_list, sqv_list.
+  assert (Ho : q_order (fst (sq_list_query limit)) = OSubmitDesc) by (unfold sq_list_query; destruct (Z.ltb 0 limit); reflexivity).
+  destruct (sq_list_query limit) as [q b]. cbn [fst] in Ho. rewrite produce_view by exact Ho. reflexivity.
+Qed.
+
+(* the ids in the table do not depend on the times at all *)
+Definition no_times (r : row) : row := set_state (r_status r) 0 0 r.
+
+Lemma existsb_no_times : forall id tb, existsb (has_id id) (map no_times tb) = existsb (has_id id) tb.
+Proof. intros id tb. induction tb as [|r tb IH]; simpl; [reflexivity|]. rewrite IH. reflexivity. Qed.
+
+Lemma no_times_update : forall id st a b tb,
+  map no_times (map (fun r => if has_id id r then set_state st a b r else r) tb)
+  = map (fun x => if has_id id x then set_state st 0 0 x else x) (map no_times tb).
+Proof.
+  intros id st a b tb. rewrite !map_map. apply map_ext. intros r.
+  change (has_id id (no_times r)) with (has_id id r). destruct (has_id id r); reflexivity.
+Qed.
+
+Lemma no_times_filter : forall id tb,
+  map no_times (filter (fun r => negb (has_id id r)) tb) = filter (fun r => negb (has_id id r)) (map no_times tb).
+Proof. intros id tb. rewrite filter_map_comm. reflexivity. Qed.
+
+Lemma no_times_step : forall tb tb' o, map no_times tb = map no_times tb' ->
+  map no_times (fst (sq_step tb o)) = map no_times (fst (sqv_step tb' o)).
+Proof.
+  intros tb tb' o H.
+  assert (Hex : forall id, sq_exists tb id = sq_exists tb' id).
+  { intros id. rewrite !sq_exists_existsb, <- (existsb_no_times id tb), <- (existsb_no_times id tb'), H. reflexivity. }
+  destruct o as [r | id st sub start fin | id]; simpl.
+  - unfold sq_create, sqv_create. destruct (N.eqb (r_id r) 0); [exact H|]. rewrite Hex.
+    destruct (sq_exists tb' (r_id r)); simpl; [exact H|]. rewrite !map_app, H. reflexivity.
+  - rewrite !no_times_update, H. reflexivity.
+  - unfold sq_delete. rewrite Hex. destruct (sq_exists tb' id); simpl; [|exact H].
+    rewrite !no_times_filter, H. reflexivity.
+Qed.
+
+Lemma no_times_run : forall ops, map no_times (sq_run ops) = map no_times (sqv_run ops).
+Proof.
+  intros ops. induction ops as [|o ops IH] using rev_ind; [reflexivity|].
+  unfold sq_run, sqv_run. rewrite !fold_left_snoc. apply no_times_step. exact IH.
+Qed.
+
+Lemma sq_exists_run : forall ops id, sq_exists (sq_run ops) id = sq_exists (sqv_run ops) id.
+Proof.
+  intros ops id. rewrite !sq_exists_existsb, <- (existsb_no_times id (sq_run ops)), <- (existsb_no_times id (sqv_run ops)).
+  rewrite no_times_run. reflexivity.
+Qed.
+
+(* ------------------------------------------------------------------ assembly: the statements of props/C15.v *)
+
 Lemma c15_exists_sqlite : forall ops id,
   (sq_exists (sq_run ops) id = true <-> In id (dom (spec_run Sqlite ops))) /\
   (sq_exists (sq_run ops) id = true <-> created_not_deleted ops id).
 Proof.
-  intros ops id. pose proof (sq_exists_correct _ _ id (sq_run_inv ops)) as H. split; [exact H|].
+  intros ops id. rewrite sq_exists_run. pose proof (sq_exists_correct _ _ id (sqv_run_inv ops)) as H. split; [exact H|].
   rewrite H. apply dom_history.
 Qed.
 
@@ -1032,7 +1220,7 @@ Proof.
   rewrite H. apply dom_history.
 Qed.
 
-Lemma c15_search_sqlite : forall ops f,
+Lemma c15_search_sqlite : forall ops f, Forall op_representable ops ->
   (validate f = false -> sq_search f (sq_run ops) = None) /\
   (validate f = true -> exists xs,
       sq_search f (sq_run ops) = Some (map SItem xs ++ [SClose]) /\
@@ -1040,7 +1228,8 @@ Lemma c15_search_sqlite : forall ops f,
       (forall x, In x xs <-> exists id v, get (spec_run Sqlite ops) id = Some v /\ matches f id v /\ x = result_of (id, v)) /\
       Permutation xs (map result_of (filter (matchesb f) (spec_run Sqlite ops)))).
 Proof.
-  intros ops f. destruct (sq_search_correct f _ _ (sq_run_inv ops)) as [H1 H2]. split; [exact H1|].
+  intros ops f Hr. rewrite search_view, (view_run ops Hr).
+  destruct (sqv_search_correct f _ _ (sqv_run_inv ops)) as [H1 H2]. split; [exact H1|].
   intros Hv. destruct (H2 Hv) as [xs [He Hs]]. exists xs. split; [exact He|].
   pose proof (search_spec_perm f _ xs (spec_run_NoDup Sqlite ops) Hs) as Hp.
   destruct Hs as [Ha [Hb Hc]]. auto.
@@ -1060,11 +1249,12 @@ Proof.
   destruct Hs as [Ha [Hb Hc]]. auto.
 Qed.
 
-Lemma c15_list_sqlite : forall ops limit, exists xs all,
+Lemma c15_list_sqlite : forall ops limit, Forall op_representable ops -> exists xs all,
   sq_list limit (sq_run ops) = map SItem xs ++ [SClose] /\
   Permutation all (map result_of (spec_run Sqlite ops)) /\ newest_first all /\ xs = take limit all.
 Proof.
-  intros ops limit. destruct (sq_list_correct limit _ _ (sq_run_inv ops)) as [xs [He [all Hs]]].
+  intros ops limit Hr. rewrite list_view, (view_run ops Hr).
+  destruct (sqv_list_correct limit _ _ (sqv_run_inv ops)) as [xs [He [all Hs]]].
   exists xs, all. tauto.
 Qed.
 
@@ -1076,12 +1266,13 @@ Proof.
   exists xs, all. tauto.
 Qed.
 
-Lemma running_found_sqlite : forall ops id v,
+Lemma running_found_sqlite : forall ops id v, Forall op_representable ops ->
   get (spec_run Sqlite ops) id = Some v -> pi_status v = status_code Running ->
   exists xs, sq_search {| f_ids := []; f_groups := []; f_statuses := [status_code Running] |} (sq_run ops)
              = Some (map SItem xs ++ [SClose]) /\ In id (map x_id xs).
 Proof.
-  intros ops id v Hg Hs. destruct (sq_search_correct running_filter _ _ (sq_run_inv ops)) as [_ H].
+  intros ops id v Hr Hg Hs. rewrite search_view, (view_run ops Hr).
+  destruct (sqv_search_correct running_filter _ _ (sqv_run_inv ops)) as [_ H].
   destruct (H eq_refl) as [xs [He Hsp]]. exists xs. split; [exact He|].
   eapply running_found_generic; eassumption.
 Qed.
@@ -1106,4 +1297,28 @@ Proof.
   intros be ops. split.
   - intros f xs. apply (search_monitor_exact f _ xs (spec_run_NoDup be ops)).
   - intros limit xs. apply (list_monitor_exact limit _ xs (spec_run_NoDup be ops)).
+Qed.
+
+(* ------------------------------------------------------------------ deciding representability (for examples) *)
+Definition representableb (t : Z) : bool :=
+  Z.eqb t zero_time_ns || (Z.leb (- 2 ^ 63) t && Z.ltb t (2 ^ 63)).
+Definition op_representableb (o : op) : bool :=
+  match o with
+  | OCreate r => representableb (r_start r) && representableb (r_end r)
+  | OUpdate _ _ _ start fin => representableb start && representableb fin
+  | ODelete _ => true
+  end.
+
+Lemma representableb_sound : forall t, representableb t = true -> representable t.
+Proof.
+  intros t H. unfold representableb in H. apply orb_true_iff in H. destruct H as [H|H].
+  - left. apply Z.eqb_eq. exact H.
+  - right. apply andb_true_iff in H. destruct H as [H1 H2]. apply Z.leb_le in H1. apply Z.ltb_lt in H2. split; assumption.
+Qed.
+
+Lemma ops_representableb_sound : forall ops, forallb op_representableb ops = true -> Forall op_representable ops.
+Proof.
+  intros ops H. rewrite forallb_forall in H. apply Forall_forall. intros o Ho. specialize (H o Ho).
+  destruct o as [r | id st sub start fin | id]; simpl in *; [| | exact I];
+    apply andb_true_iff in H; destruct H as [H1 H2]; split; apply representableb_sound; assumption.
 Qed.
